@@ -101,6 +101,7 @@ func (g *Gen) run() {
 	}
 	fr.entryR = g.curR
 	g.cover("entry")
+	g.prepareReplay()
 	if fn.Blocks == nil {
 		return
 	}
